@@ -328,6 +328,8 @@ export function f4() {
   for (const a of nf) out.push(FmtN(a));
   for (const a of nf) for (const b of nf) if (a !== b) out.push(FmtN(a, b));
   out.push(FmtN("n1", "n2", "n3"));
+  // one format name registered both as a string format and as a number format
+  out.push(FmtS("id"), FmtN("id"), FmtS("f1", "id"), FmtN("n1", "id"), ObjT([Prop("a", FmtS("id"))]), ObjT([Prop("a", FmtN("id"))]), ArrT(FmtS("id")), ArrT(FmtN("id")), U(FmtS("id"), P("null")), U(FmtN("id"), P("null")));
   // formats and templates inside containers / as record keys
   out.push(ArrT(FmtS("f1")), ObjT([Prop("a", FmtN("n2")), Prop("b", FmtS("f1", "f2"), true)]));
   out.push(U(FmtS("f1"), L(1)), U(FmtN("n2"), L("a")), U(Tpl("x", H("number")), P("number")));
